@@ -132,13 +132,23 @@ func isNull(v interface{}) bool { return ClassOf(v) == CNull }
 // Match evaluates a filter on a document per DESIGN §8.1. It returns an
 // *ErrOutside error when the (document, filter) pair is outside the core domain.
 func Match(doc bson.D, filter bson.D) (bool, error) {
-	if hasNestedArray(doc) {
-		return false, outside("nested array in document")
-	}
-	if hasNumericKey(doc) {
-		return false, outside("numeric field name in document")
-	}
 	return matchQuery(doc, filter)
+}
+
+// pathDomain is the gate of the core domain for one queried path: what a path denotes depends only on the value
+// below its first segment, so nested arrays and numeric field names elsewhere in the document do not matter.
+func pathDomain(root interface{}, path string) error {
+	sub := root
+	if d, ok := root.(bson.D); ok {
+		sub = getSegs(d, []string{strings.SplitN(path, ".", 2)[0]})
+	}
+	if hasNestedArray(sub) {
+		return outside("nested array below the queried field")
+	}
+	if hasNumericKey(sub) {
+		return outside("numeric field name below the queried field")
+	}
+	return nil
 }
 
 func matchQuery(doc bson.D, q bson.D) (bool, error) {
@@ -203,6 +213,9 @@ func isOperatorDoc(v interface{}) (bson.D, bool) {
 }
 
 func matchField(root interface{}, path string, cond interface{}) (bool, error) {
+	if err := pathDomain(root, path); err != nil {
+		return false, err
+	}
 	if ops, ok := isOperatorDoc(cond); ok {
 		for _, op := range ops {
 			if !strings.HasPrefix(op.Key, "$") {
